@@ -2,7 +2,7 @@
    unrestricted precedence statement that is false of any faithful model. *)
 From Coq Require Import String Ascii List Bool ZArith.
 Import ListNotations.
-Require Import V.Lib.PyStr V.Lib.JTree V.Conf.Model V.Conf.Proofs.
+Require Import V.Lib.PyStr V.Lib.JTree V.Conf.Model V.Conf.Proofs V.Conf.Rescan V.Conf.RescanProofs V.Conf.Acyclic.
 Open Scope string_scope.
 
 (* F4a (repaired): the pinned code interpolated the whole component, including its override sections for other
@@ -35,3 +35,25 @@ Proof.
   eexists. exists ["a"]. split; [vm_compute; reflexivity|]. vm_compute. discriminate.
 Qed.
 Print Assumptions C04_precedence_at_dictionary_refuted.
+
+(* C04_acyclic needs acyclicity: a variable that references itself gives the cycle error (RecursionError of the
+   code) in both models of interpolate. *)
+Theorem C04_cyclic_refuted :
+  exists ctx s, ~ acyclic ctx /\ interp_string ctx s = Err ECycle /\ interp_string_rs rs_extra ctx s = Err ECycle.
+Proof.
+  exists [("a", JStr "%(a)s")], "%(a)s". split; [exact self_ctx_cyclic|]. split; vm_compute; reflexivity.
+Qed.
+Print Assumptions C04_cyclic_refuted.
+
+(* C04_rescan_one_pass and clause (3) of C04_acyclic need "no '%' in literal text": with a = "%(b)s(a)s" and b = "%"
+   no variable reaches itself through the references its value shows (a -> b only), the one-pass model resolves
+   "%(a)s" to the text "%(a)s", but the loop of the code re-scans that text, finds a reference to a again and never
+   ends (RecursionError on the real FlowIR.interpolate: checked by the correspondence run, corpus rs_dynamic_cycle). *)
+Theorem C04_rescan_percent_refuted :
+  exists ctx s, acyclic ctx /\ lits_plain (scan 0 s) /\
+                interp_string ctx s = Ok s /\ interp_string_rs rs_extra ctx s = Err ECycle.
+Proof.
+  exists np_ctx, "%(a)s". split; [exact np_ctx_acyclic|]. split; [intros c H; vm_compute in H; destruct H as [H|H]; [discriminate|destruct H]|].
+  split; vm_compute; reflexivity.
+Qed.
+Print Assumptions C04_rescan_percent_refuted.
